@@ -12,7 +12,8 @@ TITLE = 'Combinatorial expansions are exactly the combinatorics of the modified 
 RULE = ('case = generated annotation of length 1..6 without intervals x one of the four functions x size/repeat in '
         '{None, 1..n} (n+1, n+2 for the non-repeating forms); non-trivial = a repeated residue letter carrying '
         'different modifications plus a global or terminal modification')
-ASSUMPTIONS = ['expected results are built on the plain-data model with itertools and compared through the field projection of the parsed results']
+ASSUMPTIONS = ['expected results are built on the plain-data model with itertools and compared through the field projection of the parsed results',
+               'random part: sizes are lowered until there are at most 3000 results (every item compared); the cells above that - product with 5^5, 6^5, 6^6 results, repeat None included - are run by the part large-products: count and number of distinct results on the whole list, items compared at the first and last 400 positions and at every 97th']
 
 FUNCS = ['permutations', 'combinations', 'combinations_with_replacement', 'product']
 
@@ -114,6 +115,73 @@ def strategy():
     return strat()
 
 
+BIG_PEPTIDES = [
+    model.empty_pep('PEKTID') | {'nterm': [['Acetyl', 1]], 'internal': [[2, [['Phospho', 1]]], [4, [['+1.5', 2]]]], 'labile': [['Glycan:Hex', 1]], 'charge': 2},
+    model.empty_pep('AKAKSA') | {'cterm': [['Amidated', 1]], 'internal': [[1, [['Methyl', 1]]], [0, [['+1', 1]]]], 'isotope': ['13C'],
+                                 'static': [[[['Carbamidomethyl', 1]], ['C']]]},
+]
+
+
+def big_cases():
+    for pi in range(len(BIG_PEPTIDES)):
+        for n in (5, 6):
+            for size in (5, 6, None):
+                if size is not None and size > n:
+                    continue
+                yield {'pep': pi, 'n': n, 'size': size}
+
+
+def check_big(case) -> Result:
+    """product with more than 3000 results: the count on the whole list, and the items at the start, at the end and at evenly
+    spread positions against the item the standard enumeration has at that position (index written in base n)"""
+    import peptacular as pt
+    r = Result()
+    pep = dict(BIG_PEPTIDES[case['pep']])
+    n, size = case['n'], case['size']
+    pep['seq'] = pep['seq'][:n]
+    pep['internal'] = [x for x in pep['internal'] if x[0] < n]
+    k = n if size is None else size
+    s = model.write_pep(pep)
+    comps = model.residues_with_mods(pep)
+    r.nontrivial = True
+    r.classes = ['product', f'n={n}', f'size={size}']
+    ctx = dict(sequence=s, func='product', size=size)
+    got = pt.product(s, size)
+    if not isinstance(got, list) or len(got) != n ** k:
+        r.fail('number of results', 'C19/product/count', expected=n ** k, got=len(got) if isinstance(got, list) else None, **ctx)
+        return r
+    total = n ** k
+    idx = sorted(set(list(range(0, 400)) + list(range(total - 400, total)) + list(range(0, total, 97))))
+    for i in idx:
+        digits, x = [], i
+        for _ in range(k):
+            digits.append(x % n)
+            x //= n
+        t = [comps[d] for d in reversed(digits)]
+        q = model.empty_pep(''.join(aa for aa, _ in t))
+        for key in ('labile', 'static', 'isotope', 'unknown', 'nterm', 'cterm', 'charge', 'adducts'):
+            q[key] = pep[key]
+        q['internal'] = [[j, ms] for j, (_aa, ms) in enumerate(t) if ms]
+        e = model.expected(q)
+        try:
+            obs = model.project(pt.parse(got[i]))
+        except ValueError as err:
+            r.fail('every result parses', 'C19/product/result-does-not-parse', index=i, result=got[i], error=str(err)[:120], **ctx)
+            break
+        if obs != e:
+            fields = model.diff_fields(e, obs)
+            wrap = [x for x in fields if x not in ('seq', 'internal')]
+            r.fail('results are, in order, the standard enumeration over residues with their modifications, wrapped in the unchanged '
+                   'global, labile and terminal annotations', 'C19/product/wrapper-changed' if wrap else 'C19/product/wrong-order-or-content',
+                   index=i, result=got[i], fields=fields, **ctx)
+            break
+    if len(set(got)) != len({tuple(repr(c) for c in t) for t in itertools.product(comps, repeat=k)}):
+        r.fail('as many distinct results as distinct tuples of residues', 'C19/product/distinct-count', **ctx)
+    return r
+
+
 def parts(tier):
     n = 3000 if tier == 'quick' else 60000
-    return [Part(name='expansions', kind='hyp', check_case=check_case, strategy=strategy, examples=n)]
+    return [Part(name='expansions', kind='hyp', check_case=check_case, strategy=strategy, examples=n),
+            Part(name='large-products', kind='enum', check_case=check_big, cases=big_cases, exhaustive=True, shards=10,
+                 space='product of two wrapped peptides cut to n = 5, 6 residues x repeat in {5, 6 (n = 6), None}: 5^5, 6^5, 6^6 results')]
